@@ -2,5 +2,146 @@ import PyCliffordModel.Proofs.TrajLemmas
 import PyCliffordModel.Spec.Reach
 /-! # Proofs/ReachLemmas — helper lemmas for the second part of C05 (maps, gates, histories) -/
 namespace PC
+namespace Rc
 
+/-! ## a row-wise operation that keeps lengths, commutation and Hermiticity keeps the invariant -/
+
+theorem tabInv_map (st : State) (n : Nat) (f : Pauli → Pauli) (h : TabInv st n)
+    (hlen : ∀ P : Pauli, P.g.length = n → (f P).g.length = n)
+    (hacq : ∀ P Q : Pauli, P.g.length = n → Q.g.length = n → acq (f P).g (f Q).g = acq P.g Q.g)
+    (hp : ∀ P : Pauli, P.g.length = n → P.p % 2 = 0 → (f P).p % 2 = 0) :
+    TabInv ⟨st.rows.map f, st.r⟩ n := by
+  obtain ⟨hl, hr, hg, hh⟩ := (tabInv_iff st n).1 h
+  rw [tabInv_iff]
+  refine ⟨by simpa using hl, hr, ⟨fun i hi => ?_, fun i j hi hj => ?_⟩, fun i hi1 hi2 => ?_⟩
+  · unfold gAt; simp only
+    rw [rowAt_map _ _ i (by omega)]
+    exact hlen _ (hg.1 i hi)
+  · unfold gAt; simp only
+    rw [rowAt_map _ _ i (by omega), rowAt_map _ _ j (by omega), hacq _ _ (hg.1 i hi) (hg.1 j hj)]
+    exact hg.2 i j hi hj
+  · simp only
+    rw [rowAt_map _ _ i (by omega)]
+    exact hp _ (hg.1 i (by omega)) (hh i hi1 hi2)
+
+/-! ## commutation through a mask: the masked and the unmasked parts add up -/
+
+theorem acqSum_scatter_scatter (m : List Bool) : ∀ (a b s t : PStr), m.length ≤ a.length → a.length = b.length →
+    s.length = maskCount m → t.length = maskCount m →
+    acqSum (scatter m a s) (scatter m b t) = acqSum a b - acqSum (gather m a) (gather m b) + acqSum s t := by
+  induction m with
+  | nil =>
+    intro a b s t _ _ hs ht
+    rw [maskCount_nil] at hs ht
+    have hs' : s = [] := List.eq_nil_of_length_eq_zero hs
+    have ht' : t = [] := List.eq_nil_of_length_eq_zero ht
+    subst hs' ht'
+    simp [scatter_nil_left, gather_nil_left, acqSum_nil_left]
+  | cons c ms ih =>
+    intro a b s t hm hab hs ht
+    cases a with
+    | nil => simp at hm
+    | cons a0 as =>
+      cases b with
+      | nil => simp at hab
+      | cons b0 bs =>
+        have hm' : ms.length ≤ as.length := by simpa using hm
+        have hab' : as.length = bs.length := by simpa using hab
+        cases c with
+        | false =>
+          rw [maskCount_cons_false] at hs ht
+          rw [scatter_cons_false, scatter_cons_false, gather_cons_false, gather_cons_false, acqSum_cons, acqSum_cons,
+            ih as bs s t hm' hab' hs ht]
+          omega
+        | true =>
+          rw [maskCount_cons_true] at hs ht
+          cases s with
+          | nil => simp at hs
+          | cons s0 ss =>
+            cases t with
+            | nil => simp at ht
+            | cons t0 ts =>
+              have hs' : ss.length = maskCount ms := by simpa using hs
+              have ht' : ts.length = maskCount ms := by simpa using ht
+              rw [scatter_cons_true_cons, scatter_cons_true_cons, gather_cons_true, gather_cons_true, acqSum_cons,
+                acqSum_cons, acqSum_cons, acqSum_cons, ih as bs ss ts hm' hab' hs' ht']
+              omega
+
+/-- a masked operation whose inner operation keeps commutation keeps commutation -/
+theorem acq_scatter_scatter (m : List Bool) (a b s t : PStr) (hm : m.length ≤ a.length) (hab : a.length = b.length)
+    (hs : s.length = maskCount m) (ht : t.length = maskCount m)
+    (he : acq s t = acq (gather m a) (gather m b)) :
+    acq (scatter m a s) (scatter m b t) = acq a b := by
+  unfold acq at *
+  rw [acqSum_scatter_scatter m a b s t hm hab hs ht]
+  omega
+
+/-! ## `transformMasked` by a valid map -/
+
+theorem length_transformMasked (M : List Pauli) (m : List Bool) (P : Pauli) :
+    (transformMasked M m P).g.length = P.g.length := by
+  unfold transformMasked; simp only; rw [length_scatter]
+
+theorem transformMasked_acq (M : List Pauli) (m : List Bool) (n : Nat) (hm : m.length = n)
+    (hM : ValidMap M (maskCount m)) (P Q : Pauli) (hP : P.g.length = n) (hQ : Q.g.length = n) :
+    acq (transformMasked M m P).g (transformMasked M m Q).g = acq P.g Q.g := by
+  have hlr : ∀ R ∈ M, R.g.length = maskCount m := fun R hR => (hM.2.1 R hR).1
+  have hgP : (gather m P.g).length = maskCount m := length_gather m P.g (by omega)
+  have hgQ : (gather m Q.g).length = maskCount m := length_gather m Q.g (by omega)
+  unfold transformMasked
+  simp only
+  apply acq_scatter_scatter m P.g Q.g _ _ (by omega) (by omega)
+    (Tr.length_transform M _ hM.1 hlr _) (Tr.length_transform M _ hM.1 hlr _)
+  exact Tr.transform_acq M (maskCount m) hM ⟨gather m P.g, P.p⟩ ⟨gather m Q.g, Q.p⟩ hgP hgQ
+
+theorem transformMasked_hermitian (M : List Pauli) (m : List Bool) (n : Nat) (hm : m.length = n)
+    (hM : ValidMap M (maskCount m)) (P : Pauli) (hP : P.g.length = n) (hp : P.p % 2 = 0) :
+    (transformMasked M m P).p % 2 = 0 := by
+  have hgP : (gather m P.g).length = maskCount m := length_gather m P.g (by omega)
+  unfold transformMasked
+  simp only
+  exact Tr.transform_hermitian M (maskCount m) hM ⟨gather m P.g, P.p⟩ hgP hp
+
+/-! ## `stabilizer_state`: the projection fold and the final phase assignment -/
+
+theorem allHerm_maximallyMixed (N : Nat) : AllHerm (maximallyMixed N).rows := by
+  intro R hR
+  unfold maximallyMixed toState mapToState at hR
+  simp only [List.mem_append, List.mem_map] at hR
+  have key : ∀ k, (rowAt (idMap N) k).p % 2 = 0 := by
+    intro k
+    by_cases hk : k < (idMap N).length
+    · rw [(Tr.idMap_rows N _ (rowAt_mem _ k hk)).2]; rfl
+    · rw [rowAt_of_le _ _ (by omega)]; rfl
+  rcases hR with ⟨i, _, rfl⟩ | ⟨i, _, rfl⟩
+  · exact key _
+  · exact key _
+
+theorem project_inv (n : Nat) (obs : List PStr) : ∀ (st : State), TabInv st n → AllHerm st.rows →
+    (∀ o ∈ obs, o.length = n) → TabInv (project st obs) n ∧ AllHerm (project st obs).rows := by
+  induction obs with
+  | nil => intro st h hh _; exact ⟨h, hh⟩
+  | cons o os ih =>
+    intro st h hh ho
+    obtain ⟨h1, h2⟩ := C05_project1_inv st n o h hh (ho o (by simp))
+    have := ih (project1 st o) h1 h2 (fun o' ho' => ho o' (by simp [ho']))
+    simpa [project, List.foldl_cons] using this
+
+/-- rewriting only phases, with even phases on the active rows, keeps the invariant -/
+theorem tabInv_mapIdx_phase (st : State) (n : Nat) (f : Nat → Pauli → Pauli) (h : TabInv st n)
+    (hg : ∀ i R, (f i R).g = R.g)
+    (hp : ∀ i R, st.r ≤ i → i < n → (f i R).p % 2 = 0) :
+    TabInv ⟨st.rows.mapIdx f, st.r⟩ n := by
+  obtain ⟨hl, hr, hgr, _⟩ := (tabInv_iff st n).1 h
+  rw [tabInv_iff]
+  refine ⟨by simpa using hl, hr, GramF.congr hgr (fun k hk => ?_), fun i hi1 hi2 => ?_⟩
+  · unfold gAt; simp only; rw [rowAt_mapIdx _ _ k (by omega), hg]
+  · simp only; rw [rowAt_mapIdx _ _ i (by omega)]; exact hp i _ hi1 hi2
+
+theorem rowAt_p_even (T : List Pauli) (h : ∀ s ∈ T, s.p % 2 = 0) (k : Nat) : (rowAt T k).p % 2 = 0 := by
+  by_cases hk : k < T.length
+  · exact h _ (rowAt_mem T k hk)
+  · rw [rowAt_of_le _ _ (by omega)]; rfl
+
+end Rc
 end PC
